@@ -48,6 +48,9 @@ class Ctx:
     def entry(self, *needles):
         """Unique function key containing all needles (entry points are found by type, not by file/line)."""
         ks = [k for k in self.crate.fns if all(n in k for n in needles)]
+        exact = [k for k in ks if k in needles]
+        if len(exact) == 1:
+            return exact[0]
         if len(ks) != 1:
             raise KeyError(f"entry {needles}: {len(ks)} candidates {ks[:4]}")
         return ks[0]
